@@ -62,6 +62,7 @@ Definition op_eqb (a b : op) : bool :=
 Inductive gtree :=
 | GSurf (s : Z) (sub : option Z)        (* MIP Surface(surface, sub) *)
 | GCell (c : Z)                          (* CellRef *)
+| GCompl (c : Z)                         (* ('^', Cell): only before pot_complement *)
 | GNode (o : op) (args : list gtree).
 
 (* flagged / expanded tree: [id, op, args...]; leaves: Surface objects before
@@ -72,7 +73,7 @@ Inductive ftree :=
 | FCell (c : Z)
 | FNode (id : Z) (o : op) (args : list ftree).
 
-Inductive err := EFuel | EKey | EFacet | EShape.
+Inductive err := EFuel | EKey | EFacet | EShape | EMismatch.
 Inductive res (A : Type) := Ok (a : A) | Err (e : err).
 Arguments Ok {A}. Arguments Err {A}.
 
@@ -153,6 +154,7 @@ Fixpoint flag (fuel : nat) (n : Z) (t : gtree) {struct fuel} : res (Z * ftree) :
       match t with
       | GSurf s sub => Ok (n, FSurf s sub)
       | GCell c => Ok (n, FCell c)
+      | GCompl _ => Err EShape
       | GNode o args =>
           do (n', l) <- fold_left (fun acc a =>
                  do (n0, l0) <- acc; do (n1, a') <- flag f n0 a; Ok (n1, l0 ++ [a']))
